@@ -158,7 +158,15 @@ class Vertex(base.BaseObject):
         if not self.NEIGHBOR_CACHING:
             return self._QA_NB_INVALID
 
-        if args in self.__qa_nb_cache:
+        try:
+            cached = args in self.__qa_nb_cache
+        except TypeError:
+            # an argument that cannot be hashed (e.g. a callable object that
+            # defines __eq__ but not __hash__) cannot be a cache key: the
+            # answer is simply computed, as it is with caching switched off
+            return self._QA_NB_INVALID
+
+        if cached:
             self._CACHE_STATS.setdefault(self.uid, [0, 0, 0, 0])[0] += 1
 
             # hand out a copy: the caller owns what neighbors() returns
@@ -199,9 +207,13 @@ class Vertex(base.BaseObject):
         """
         if not self.NEIGHBOR_CACHING:
             return
+        try:
+            # keep our own copy: the caller goes on owning ``answer``
+            self.__qa_nb_cache[args] = list(answer)
+        except TypeError:
+            # unhashable argument: nothing to remember (see _qa_neighbors_get)
+            return
         self._CACHE_STATS.setdefault(self.uid, [0, 0, 0, 0])[3] += 1
-        # keep our own copy: the caller goes on owning ``answer``
-        self.__qa_nb_cache[args] = list(answer)
 
     def add_to_link(self, link: Link):
         """
